@@ -4,6 +4,8 @@
 package mod_cors
 
 import (
+	"net/url"
+
 	"github.com/bfenetworks/bfe/bfe_basic"
 	"github.com/bfenetworks/bfe/bfe_http"
 	"github.com/bfenetworks/bfe/bfe_module"
@@ -86,4 +88,90 @@ func VerifRunHistory(confs []VerifConf, req *bfe_basic.Request, backend bfe_http
 		return "?", nil, loaded
 	}
 	return "N", resp.Header, loaded
+}
+
+// VerifRunFiles loads every rule FILE through the real loadRuleData (CorsRuleFileLoad: JSON decoding,
+// CorsRuleCheck, condition.Build + ruleConvert for every rule, then CorsRuleTable.Update; a rejected file leaves
+// the table alone) into ONE module, then drives the two handlers like VerifRun.  loads holds one '1'/'0' per file.
+func VerifRunFiles(paths []string, req *bfe_basic.Request, backend bfe_http.Header) (string, string, bfe_http.Header) {
+	m := NewModuleCors()
+	m.conf = &ConfModCors{}
+	loads := make([]byte, 0, len(paths))
+	for _, p := range paths {
+		if _, err := m.loadRuleData(url.Values{"path": []string{p}}); err == nil {
+			loads = append(loads, '1')
+		} else {
+			loads = append(loads, '0')
+		}
+	}
+	ret, resp := m.corsPreflightHandler(req)
+	if ret == bfe_module.BfeHandlerResponse && resp != nil {
+		if resp.StatusCode != bfe_http.StatusNoContent {
+			return string(loads), "Pstatus", resp.Header
+		}
+		return string(loads), "P", resp.Header
+	}
+	if ret != bfe_module.BfeHandlerGoOn {
+		return string(loads), "?", nil
+	}
+	resp = &bfe_http.Response{StatusCode: 200, Header: backend}
+	if m.corsHandler(req, resp) != bfe_module.BfeHandlerGoOn {
+		return string(loads), "?", nil
+	}
+	return string(loads), "N", resp.Header
+}
+
+// VerifPre is an earlier request of a history: it runs right after configuration number After (1-based; 0 = before
+// the first load) has been loaded, through both handlers, and its result is discarded.
+type VerifPre struct {
+	After   int
+	Req     *bfe_basic.Request
+	Backend bfe_http.Header
+}
+
+// VerifRunHistory2 is VerifRunHistory with earlier requests served by the same module instance in between.
+func VerifRunHistory2(confs []VerifConf, pre []VerifPre, req *bfe_basic.Request, backend bfe_http.Header) (string, bfe_http.Header) {
+	m := NewModuleCors()
+	serve := func(r *bfe_basic.Request, b bfe_http.Header) (string, bfe_http.Header) {
+		ret, resp := m.corsPreflightHandler(r)
+		if ret == bfe_module.BfeHandlerResponse && resp != nil {
+			if resp.StatusCode != bfe_http.StatusNoContent {
+				return "Pstatus", resp.Header
+			}
+			return "P", resp.Header
+		}
+		if ret != bfe_module.BfeHandlerGoOn {
+			return "?", nil
+		}
+		resp = &bfe_http.Response{StatusCode: 200, Header: b}
+		if m.corsHandler(r, resp) != bfe_module.BfeHandlerGoOn {
+			return "?", nil
+		}
+		return "N", resp.Header
+	}
+	runPre := func(i int) {
+		for _, p := range pre {
+			if p.After == i {
+				serve(p.Req, p.Backend)
+			}
+		}
+	}
+	runPre(0)
+	for i, c := range confs {
+		conf := &CorsRuleConf{Version: c.Version, Config: make(ProductRuleList)}
+		ok := true
+		for product, raw := range c.Products {
+			rules, err := ruleListConvert(raw)
+			if err != nil {
+				ok = false
+				break
+			}
+			conf.Config[product] = rules
+		}
+		if ok {
+			m.ruleTable.Update(conf)
+		}
+		runPre(i + 1)
+	}
+	return serve(req, backend)
 }
